@@ -149,7 +149,7 @@ def make():
     from ..machine import make_machine
     from .. import gen
 
-    Base = make_machine(World, CHECKS, cfg(), {"remove": 0, "close": 0, "inplay": 0, "place_existing": 0, "txn": 2, "book": 3, "bulk": 1})
+    Base = make_machine(World, CHECKS, cfg(), {"remove": 0, "close": 0, "inplay": 0, "place_existing": 0, "txn": 2, "book": 3, "bulk": 1, "cancel_batch": 1})
 
     from hypothesis.stateful import rule
 
